@@ -1009,7 +1009,10 @@ func (p *PikeVM) SearchWithCapturesAt(haystack []byte, at int) *MatchWithCapture
 		return nil
 	}
 
-	if at == len(haystack) {
+	// The end-of-input shortcut knows only group 0: with sub-groups the simulation
+	// itself must run so that groups closed by the empty match are reported
+	// (`(a*)*` on "" has group 1 = [0 0]).
+	if at == len(haystack) && p.nfa.CaptureCount() <= 1 {
 		// At end of input - check if empty string matches at this position.
 		// Must use matchesEmptyAt with full haystack context for correct
 		// look assertion evaluation (e.g., \B needs previous byte context).
@@ -1018,18 +1021,6 @@ func (p *PikeVM) SearchWithCapturesAt(haystack []byte, at int) *MatchWithCapture
 				Start:    at,
 				End:      at,
 				Captures: p.buildCapturesResult(nil, at, at),
-			}
-		}
-		return nil
-	}
-
-	if len(haystack) == 0 {
-		// Check if empty string matches (haystack is empty, pos=0)
-		if p.matchesEmptyAt(haystack, 0) {
-			return &MatchWithCaptures{
-				Start:    0,
-				End:      0,
-				Captures: p.buildCapturesResult(nil, 0, 0),
 			}
 		}
 		return nil
@@ -2198,15 +2189,10 @@ func (p *PikeVM) SearchWithSlotTableCapturesAt(haystack []byte, at int) *MatchWi
 
 	numGroups := p.nfa.CaptureCount()
 
-	if at == len(haystack) {
+	// Shortcut only without sub-groups (see SearchWithCapturesAt)
+	if at == len(haystack) && numGroups <= 1 {
 		if p.matchesEmptyAt(haystack, at) {
 			return p.buildCapturesFromSlots(nil, at, at)
-		}
-		return nil
-	}
-	if len(haystack) == 0 {
-		if p.matchesEmpty() {
-			return p.buildCapturesFromSlots(nil, 0, 0)
 		}
 		return nil
 	}
